@@ -10,6 +10,8 @@ RULE = ("random arrays (1-4 dims, int/float data, label kinds int/float/str in a
         "{NaN, int, float} x raise_error x method {None,left,right}; reindex_like over templates sharing 0-3 dims. class = (kind, order, "
         "mode, form, fill kind, data kind, raise_error, method, ndim, axis position); trivial = none")
 ANCHORS = ["align.reindex_axis", "align.reindex_like", "indexing.locate_many", "dimarraycls.take_axis"]
+# entry points the workload calls itself; the other anchors are helpers behind them (counted as evidence only)
+ANCHORS_REQUIRED = ["align.reindex_axis", "align.reindex_like"]
 FLOORS = {"quick": {"evaluations": 2500, "distinct": 800, "outcome:filled": 300, "outcome:raise-error-raised": 50},
           "thorough": {"evaluations": 50000, "distinct": 3000}}
 MODES = ['subset', 'superset', 'disjoint', 'perm', 'repeat', 'empty', 'self', 'otherkind']
